@@ -1,6 +1,7 @@
 SPECIFICATION Spec
 CONSTANTS
   Deviations <- AllDevs
+  Ranks <- R23
   Big = FALSE
 INVARIANT ImplInv
 INVARIANT NoSpuriousBlame
